@@ -28,18 +28,20 @@ def use_repo(hooks=True):
 
 
 # ---- fixed point ---------------------------------------------------------------------------------
-LIM = 2000.0
+LIM = 1000.0
+# TLC cannot compare an integer with a string, so the non-numbers are sentinel integers above the value range
+NAN, PINF, NINF = 2000000001, 2000000002, 2000000003
 
 
 def fx(x, scale=1e6):
-    """float -> micro-unit integer, or the strings "nan" / "inf" / "-inf" (DESIGN 2.3)."""
+    """float -> micro-unit integer, or the sentinels NAN / PINF / NINF (DESIGN 2.3, Fix.tla)."""
     if x is None:
-        return "nan"
+        return NAN
     x = float(x)
     if math.isnan(x):
-        return "nan"
+        return NAN
     if math.isinf(x):
-        return "inf" if x > 0 else "-inf"
+        return PINF if x > 0 else NINF
     if abs(x) >= LIM * 1e6 / scale:
         raise OverflowError("value %r outside the fixed-point range" % x)
     return int(round(x * scale))
